@@ -319,8 +319,12 @@ def misuse_menu(s, opts, d):
                             evs.append(("x-len", via, path, "int-total"))
                     if xt.is_dyn(nt[1]) and nv["items"] and grow_value(nt[1], next(iter(nv["items"].values())), tuple(path) + (next(iter(nv["items"])),)) is not None:
                         evs.append(("x-items", via, path, "first"))
+                        if via == "h" and xt.py_expressible(nt, nv):
+                            evs.append(("x-items", via, path, "first", "nd-object"))
                         if len(nv["items"]) > 1:
                             evs.append(("x-items", via, path, "last-alt"))
+                            if via == "h" and xt.py_expressible(nt, nv):
+                                evs.append(("x-items", via, path, "last-alt", "nd-object"))
                             if any(st[0] == "Str" for st in xt.subtypes(nt[1])):
                                 evs.append(("x-items", via, path, "last-shrink"))
         if nt[0] in ("St", "A") and (not path or path[-1] not in ("*", "#")) and seen_arr <= opts.get("max_arrays", 4):
@@ -445,7 +449,14 @@ def apply_misuse(s, ev):
                 items[k] = hist.same_size_alt(nt[1], items[k], j) if variant == "last-alt" else shrink_value(nt[1], items[k])
             items[last] = grow_value(nt[1], items[last], tuple(ev[2]) + (last,))
         g = {"shape": nv["shape"], "items": items}
-        hand.assign(rt, rh, path, xt.to_py(nt, g))
+        arg = xt.to_py(nt, g)
+        if len(ev) > 4 and ev[4] == "nd-object":
+            # the same items in a NumPy array of python objects of the array's shape (a source that has a dtype)
+            a = np.empty(tuple(nv["shape"]), dtype=object)
+            for idx in np.ndindex(*nv["shape"]):
+                a[idx] = xt.to_py(nt[1], items[idx])
+            arg = a
+        hand.assign(rt, rh, path, arg)
     elif kind == "x-struct":
         # every field before the last growable one gets another (fitting) value, the last growable part is too large
         d = {}
